@@ -12,6 +12,11 @@ Terms are nested tuples `(op, ...)`:
   ("item", t, i) ("index", t, i) ("slice", t, lo, hi, step) ("call", name, args) ("mcall", recv, attr, args) ("cmp", op, a, b)
   ("not", t) ("and"|"or", ts) ("phi", cond, a, b) ("isinstance", t, names) ("binop", op, a, b) ("fstr", parts) ("funcref", fi)
   ("classref", fq) ("bound", obj, fi) ("lambda", fi) ("global", dotted) ("builtin", name) ("any", gens) ("disj", alternatives) ("unknown", why)
+  ("attrgetter", dotted)   -- `operator.attrgetter("a")`; `map` / `filter` / a call apply it like a lambda
+
+Library calls with an exact meaning are normalised: `[*xs]` is `list(xs)`, `chain.from_iterable(xss)` / `chain(*xss)` / `sum(xss, [])` are the flattening generator / list
+(continuing the generators of xss when that is a comprehension), `map(f, <comprehension>)` / `filter(f, <comprehension>)` are the
+comprehension with f applied to / tested on its element, `islice(xs, n)` is ("call", "islice", (xs, n)) (c16_logic knows its length).
 
 What is recorded: events (`raise`, `setitem`, `setattr`, `call` of an un-interpreted method, `return`) with the path condition under
 which they happen (a tuple of (term, polarity)), whether they sit in an un-summarised loop, and the AST node / function they came from.
@@ -39,6 +44,10 @@ BUILTIN_NAMES = {
     "len", "set", "list", "tuple", "sorted", "frozenset", "dict", "bool", "str", "int", "any", "all", "map", "filter", "zip", "enumerate", "iter", "next",
     "reversed", "min", "max", "sum", "isinstance", "repr", "range", "type", "print", "getattr", "setattr", "hasattr", "id",
 }
+
+
+CALLABLE_TERMS = ("lambda", "funcref", "classref", "bound", "attrgetter")
+LIBRARY_VALUES = ("operator.attrgetter",)  # library calls whose value may be held by a module-level constant
 
 
 def const(v) -> Term:
@@ -334,9 +343,7 @@ class SymExec:
         n_events = len(self.events)
         depth0 = self.binders
         loc = st.fork()
-        self.bind_target(s.target, ("bv", self.binders), loc)
-        self.binders += 1
-        gens: list = [[it, []]]
+        gens: list = self._open_generator(it, s.target, loc)
         actions: list = []
         raises: list = []
         temps: set = {n.id for n in ast.walk(s.target) if isinstance(n, ast.Name)}
@@ -399,13 +406,12 @@ class SymExec:
                 if isinstance(s, ast.For) and not s.orelse:
                     it = self.ev(s.iter, loc, fr)
                     saved = dict(loc.env)
-                    self.bind_target(s.target, ("bv", self.binders), loc)
+                    opened = self._open_generator(it, s.target, loc)
                     temps |= {n.id for n in ast.walk(s.target) if isinstance(n, ast.Name)}
-                    self.binders += 1
-                    gens.append([it, []])
+                    gens.extend(opened)
                     ok = self._collect(s.body, loc, outer, fr, gens, actions, raises, temps, n_ifs)
-                    gens.pop()
-                    self.binders -= 1
+                    del gens[-len(opened):]
+                    self.binders -= len(opened)
                     if not ok:
                         return False
                     continue
@@ -488,12 +494,11 @@ class SymExec:
             if t[0] in ("attr", "param", "mcall", "call", "phi", "index"):
                 self.classes_of(t, fr, e)
             return t
-        if isinstance(e, ast.List):
-            return ("list", tuple(self.ev(x, st, fr) for x in e.elts))
-        if isinstance(e, ast.Tuple):
-            return ("tuple", tuple(self.ev(x, st, fr) for x in e.elts))
-        if isinstance(e, ast.Set):
-            return ("set", tuple(self.ev(x, st, fr) for x in e.elts))
+        if isinstance(e, (ast.List, ast.Tuple, ast.Set)):
+            kind = {ast.List: "list", ast.Tuple: "tuple", ast.Set: "set"}[type(e)]
+            if len(e.elts) == 1 and isinstance(e.elts[0], ast.Starred):
+                return ("call", kind, (self.ev(e.elts[0].value, st, fr),))  # `[*xs]` is `list(xs)`
+            return (kind, tuple(self.ev(x, st, fr) for x in e.elts))
         if isinstance(e, ast.Dict):
             return ("dict", tuple((self.ev(k, st, fr) if k is not None else ("star",), self.ev(v, st, fr)) for k, v in zip(e.keys, e.values)))
         if isinstance(e, (ast.ListComp, ast.SetComp, ast.GeneratorExp, ast.DictComp)):
@@ -595,6 +600,8 @@ class SymExec:
         elif isinstance(e, (ast.Dict, ast.Tuple, ast.List)) and not any(isinstance(n, (ast.Call, ast.Lambda, ast.ListComp, ast.DictComp, ast.SetComp, ast.GeneratorExp)) for n in ast.walk(e)):
             probe = FuncInfo(name="<module>", qualname="<module>", node=ast.Lambda(args=ast.arguments(posonlyargs=[], args=[], kwonlyargs=[], kw_defaults=[], defaults=[]), body=ast.Constant(value=None)), module=mod)
             cache[key] = self.ev(e, State({}, {}, ()), Frame(probe))
+        elif isinstance(e, ast.Call) and self.repo.resolve_name(mod, e.func) in LIBRARY_VALUES and not e.keywords and all(isinstance(a, ast.Constant) for a in e.args):
+            cache[key] = self.library(self.repo.resolve_name(mod, e.func), [const(a.value) for a in e.args], {})
         return cache[key]
 
     def _static_type(self, fr: Frame, e: ast.expr):
@@ -657,15 +664,26 @@ class SymExec:
                     return v
         return ("attr", obj, e.attr)
 
+    def _open_generator(self, it: Term, target: ast.expr, loc: State) -> list:
+        """Binds the target of `for <target> in <it>` and returns the generators ([iterable, conditions]) it stands for: one that
+        binds a fresh variable - or, when `it` is itself a (lazy or list) comprehension built at this binder depth, the generators of
+        that comprehension, with the target bound to what it yields (`[f(x) for x in (g(y) for y in ys)]` is `[f(g(y)) for y in ys]`)."""
+        if it[0] == "comp" and it[1] in ("gen", "list") and it[4] == self.binders and it[3]:
+            self.bind_target(target, it[2], loc)
+            self.binders += len(it[3])
+            return [[g[0], list(g[1])] for g in it[3]]
+        self.bind_target(target, ("bv", self.binders), loc)
+        self.binders += 1
+        return [[it, []]]
+
     def ev_comp(self, e, st: State, fr: Frame) -> Term:
         loc = st.fork()
         depth0 = self.binders
         gens = []
         for g in e.generators:
-            it = self.ev(g.iter, loc, fr)
-            self.bind_target(g.target, ("bv", self.binders), loc)
-            self.binders += 1
-            gens.append((it, tuple(self.ev(c, loc, fr) for c in g.ifs)))
+            opened = self._open_generator(self.ev(g.iter, loc, fr), g.target, loc)
+            opened[-1][1] += [self.ev(c, loc, fr) for c in g.ifs]
+            gens += [(it, tuple(ifs)) for it, ifs in opened]
         if isinstance(e, ast.DictComp):
             elt = ("kv", self.ev(e.key, loc, fr), self.ev(e.value, loc, fr))
         else:
@@ -707,6 +725,13 @@ class SymExec:
             fterm = self.ev(f, st, fr)
         args = [self.ev(a, st, fr) for a in call.args if not isinstance(a, ast.Starred)]
         kws = {k.arg: self.ev(k.value, st, fr) for k in call.keywords if k.arg is not None}
+        lib = fterm[1] if fterm is not None and fterm[0] == "global" else f"{recv[1]}.{f.attr}" if fterm is None and recv is not None and recv[0] == "global" else None
+        if lib == "itertools.chain" and len(call.args) == 1 and isinstance(call.args[0], ast.Starred) and not call.keywords:
+            return self.flatten(self.ev(call.args[0].value, st, fr))  # `chain(*xss)`
+        if lib is not None and not starred:
+            t = self.library(lib, args, kws)
+            if t is not None:
+                return t
         if fterm is not None:
             if fterm[0] == "funcref":
                 target = fterm[1]
@@ -718,6 +743,8 @@ class SymExec:
                 target, recv = fterm[1], None
             elif fterm[0] == "classref":
                 return self.construct(fterm[1], args, kws, starred, call, st, fr)
+            elif fterm[0] == "attrgetter" and len(args) == 1 and not kws and not starred:
+                return self.apply(fterm, args, st, fr, call)
         if target is None and not starred and fterm is None:
             try:
                 cs, how = self.T.callees(fr.ctx, call, byname_fallback=False)
@@ -734,6 +761,18 @@ class SymExec:
                 if isinstance(f, ast.Attribute):
                     rt = self._static_type(fr, f.value)
                     via_class = any(m[0] == "type" for m in members(rt)) and not target.is_classmethod and not target.is_staticmethod
+        if target is None and not repo_targets and not starred and fterm is None and isinstance(f, ast.Attribute) and recv is not None and recv[0] not in ("classref", "global", "builtin"):
+            # the static type of the receiver expression is not known (a local bound to what a generic helper returned), but the
+            # *term* is one whose classes were recorded where it was read: `rule = _required(self._rule, ..); rule.step()`
+            impls: list[FuncInfo] = []
+            for fq in self.classes_of(recv):
+                ci = self.repo.classes.get(fq)
+                for m in self.repo.implementations(ci, f.attr) if ci is not None else ():
+                    if m not in impls:
+                        impls.append(m)
+            concrete = [m for m in impls if not m.is_abstract]
+            if len(concrete) == 1 and not concrete[0].is_property and not concrete[0].is_staticmethod and not concrete[0].is_classmethod:
+                target, via_class = concrete[0], False
         if target is not None and not starred:
             try:
                 env = self.bind(target, recv, via_class, args, kws, fterm, fr)
@@ -754,6 +793,26 @@ class SymExec:
         a = tuple(args) + tuple(("kw", k, v) for k, v in kws.items())
         self.emit("call", st, call, fr, recv=None, method=ft, args=a)
         return ("call", ft, a)
+
+    def library(self, fq: str, args: list, kws: dict) -> Term | None:
+        """Standard-library callables with an exact meaning in terms: `attrgetter("a")`, `islice(xs, n)`, `chain.from_iterable(xss)`."""
+        if kws:
+            return None
+        if fq == "operator.attrgetter" and len(args) == 1 and args[0][0] == "const" and isinstance(args[0][1], str) and args[0][1]:
+            return ("attrgetter", args[0][1])
+        if fq == "itertools.islice" and len(args) == 2:
+            return ("call", "islice", tuple(args))
+        if fq == "itertools.chain.from_iterable" and len(args) == 1:
+            return self.flatten(args[0])
+        return None
+
+    def flatten(self, x: Term, kind: str = "gen") -> Term:
+        """`(e for xs in x for e in xs)`; when x is itself a comprehension its generators are continued."""
+        if x[0] == "comp" and x[1] != "dict" and x[4] >= self.binders:
+            k = len(x[3])
+            return ("comp", kind, ("bv", x[4] + k), x[3] + ((x[2], ()),), x[4])
+        b = self.binders
+        return ("comp", kind, ("bv", b + 1), ((x, ()), (("bv", b), ())), b)
 
     def _container_effects(self, recv: Term, attr: str, args, kws, st: State, fr: Frame, call: ast.Call) -> None:
         """dict.setdefault / dict.update / dict.__setitem__ on a state container are writes of entries."""
@@ -786,6 +845,8 @@ class SymExec:
             return ({"frozenset": "set"}.get(name, name), ())
         if name == "bool" and len(args) == 1:
             return ("call", "bool", args)
+        if name == "sum" and len(args) == 2 and args[1] == ("list", ()) and not kws:
+            return self.flatten(args[0], "list")  # `sum(xss, [])` concatenates the lists
         if name == "getattr" and len(args) in (2, 3) and not kws:
             alts = _const_alternatives(args[1])
             if alts is not None:
@@ -806,7 +867,22 @@ class SymExec:
                     st.heap[(args[0], n)] = new
                 st.pc = base
                 return NONE_T
-        if name in ("map", "filter") and len(args) == 2 and args[0][0] in ("lambda", "funcref", "classref", "bound"):
+        if name in ("map", "filter") and len(args) == 2 and args[0][0] in CALLABLE_TERMS and args[1][0] == "comp" and args[1][1] != "dict" and args[1][4] >= self.binders:
+            # over a comprehension: the function is applied to (the test is added to) what the comprehension yields
+            inner = args[1]
+            saved = self.binders
+            self.binders = inner[4] + len(inner[3])
+            try:
+                r = self.apply(args[0], [inner[2]], st, fr, call)
+            except (_Opaque, _Dead):
+                r = None
+            self.binders = saved
+            if r is not None:
+                if name == "map":
+                    return ("comp", "gen", r, inner[3], inner[4])
+                gens = inner[3][:-1] + ((inner[3][-1][0], inner[3][-1][1] + (r,)),)
+                return ("comp", "gen", inner[2], gens, inner[4])
+        if name in ("map", "filter") and len(args) == 2 and args[0][0] in CALLABLE_TERMS:
             bv = ("bv", self.binders)
             self.binders += 1
             try:
@@ -821,6 +897,11 @@ class SymExec:
         return ("call", name, args + tuple(("kw", k, v) for k, v in kws))
 
     def apply(self, fterm: Term, args: list, st: State, fr: Frame, call: ast.Call) -> Term:
+        if fterm[0] == "attrgetter":
+            v = args[0]
+            for a in fterm[1].split("."):
+                v = self.load_attr(v, a, st, fr, None)
+            return v
         if fterm[0] == "classref":
             return self.construct(fterm[1], args, {}, False, call, st, fr)
         if fterm[0] == "bound":
@@ -1129,6 +1210,8 @@ def show(t, depth: int = 0) -> str:
         return "(" + " or ".join("(" + " and ".join(("" if pol else "not ") + r(c) for c, pol in alt) + ")" for alt in t[1]) + ")"
     if op == "unknown":
         return f"<?{t[1]}>"
+    if op == "attrgetter":
+        return f"attrgetter({t[1]!r})"
     return op + "(" + ", ".join(r(x) if is_term(x) else repr(x) for x in t[1:]) + ")"
 
 
